@@ -1,7 +1,7 @@
 """C37 check configuration."""
 SPEC = {
     "module": "C37.Property",
-    "targets": ["C37/Property.vo"],
+    "targets": ["C37/Property.vo", "C37/Stress.vo"],
     "theorems": ["C37_invariant", "C37_fetch_at_most_once", "C37_starts_counts", "C37_no_return_before_fetch_end",
                  "C37_one_updater", "C37_updated_after_fetch", "C37_model_satisfies_spec", "C37_oracle_means_once",
                  "C37_old_order_refuted", "C37_old_order_oracle_false", "C37_nonvacuous"],
@@ -12,6 +12,12 @@ SPEC = {
                      "had two fetches started (the rsync command ran twice / RepositoryUpdate::try_update was "
                      "entered twice, as logged at the call and as seen by the fake rsync / the proxy), or a thread "
                      "returned from load_module / load_repository for a key before a fetch of that key had ended"},
+    }, {
+        "name": "stress", "bin": "c37", "check_module": "C37.Stress", "fn": "check_scase", "casetype": "scase",
+        "env": {"C37_STREAM": "stress"},
+        "why": {"2": "C37.Stress.check_scase: several real threads asked one collector run for the same fresh rsync module "
+                     "/ RRDP repository at the same moment and a key had two fetches started or two metrics entries "
+                     "(oracle-only stream, no model)"},
     }],
     "level_text": "Partial (the proof is about the model; that std's Mutex and RwLock make the modelled steps atomic "
                   "is assumed). Theorems for any number of threads, any per-thread sequence of load_module / "
@@ -21,7 +27,7 @@ SPEC = {
                   "load_* for a key a fetch of that key has ended before (dubious keys: nothing is fetched); per "
                   "key at most one thread is between the second look into `updated` and the insert; a key is in "
                   "`updated` only after its fetch ended. The old rsync order (running.remove before "
-                  "updated.insert) is refuted by a 2-thread schedule (C37_old_order_refuted).",
+                  "updated.insert) is refuted by a 2-thread schedule (C37_old_order_refuted). A second, oracle-only stream (`stress`, no model, no theorem) lets real threads ask for the same fresh key at the same moment and counts the fetches per key, because what lies between two rendezvous points is one atomic step of the schedules stream.",
     "level_note": "Model hand-written from src/collector/rsync.rs Run::load_module and src/collector/rrdp/base.rs "
                   "Run::load_repository. Tie = schedule-controlled replay: real threads calling the real load_* on "
                   "a bare collector run are stopped at cfg(routinator_verif) points after every modelled atomic "
